@@ -100,6 +100,22 @@ def gen_cases(ctx):
         rng = ctx.rng("sched", i)
         nj = rng.randint(2, 4)
         jobs = [gen_job(rng) for _ in range(nj)]
+        # one movie analysed by two jobs (same frames, other detections withheld): with `share` both
+        # read the SAME frame objects; and two jobs with the same per-axis range share one array
+        fl = [j for j, jb in enumerate(jobs) if jb["kind"] == "find_link_iter"]
+        if fl and rng.random() < 0.5:
+            twin = dict(jobs[fl[0]])
+            twin["withhold_seed"] = rng.randrange(10 ** 6)
+            jobs[fl[0]]["movie_id"] = twin["movie_id"] = "m%d" % fl[0]
+            jobs.append(twin)
+        an = [j for j, jb in enumerate(jobs) if jb["kind"] in ("link_iter", "link_df_iter") and not jb.get("iso", True)]
+        if an and rng.random() < 0.5:
+            other = gen_job(rng, kind=rng.choice(["link_iter", "link_df_iter"]))
+            if other["dim"] == jobs[an[0]]["dim"] and not other.get("fine") and not jobs[an[0]].get("fine"):
+                other["sr"], other["iso"], other["scale_pow"] = list(jobs[an[0]]["sr"]), False, 0
+                jobs[an[0]]["scale_pow"] = 0
+                jobs.append(other)
+        nj = len(jobs)
         steps = []
         for j, jb in enumerate(jobs):
             steps += [j] * len(jb["frames"])
@@ -118,6 +134,8 @@ def gen_cases(ctx):
             if rng.random() < 0.15:
                 sched.append("L")                  # a complete tp.link call in between
         case = dict(stream="sched", jobs=jobs, sched=sched, link_seed=rng.randrange(10 ** 6))
+        if rng.random() < 0.5:
+            case["share"] = True
         # sampled: compare every job with its run in a fresh interpreter (cases with find_link jobs of
         # different brightness first: that is where remembered image statistics would show)
         amps = {jb.get("amp") for jb in jobs if jb["kind"] == "find_link_iter"}
@@ -140,12 +158,17 @@ def gen_cases(ctx):
                 yield dict(stream="sched", jobs=jobs, sched=list(perm), link_seed=b, family="exh")
 
 
-def make_gen(jb):
+def make_gen(jb, shared=None):
+    """`shared`: caller-owned objects handed to several jobs — {"sr": ndarray used as search_range,
+    "reader": list of frames} (what a script does that links one movie twice or keeps its
+    per-axis range in an array)"""
     import pandas as pd
     import trackpy as tp
     kind = jb["kind"]
     dim = jb["dim"]
     sr = linkcommon.search_range_arg(jb)
+    if shared and shared.get("sr") is not None:
+        sr = shared["sr"]
     cols = {1: ["x"], 2: ["y", "x"], 3: ["z", "y", "x"]}[dim]
     kw = dict(memory=jb["memory"])
     if jb.get("strategy"):
@@ -167,7 +190,10 @@ def make_gen(jb):
                  [int(i) for i in df["particle"].values]) for df in g)
     if kind == "find_link_iter":
         from trackpy.linking.find_link import find_link_iter
-        reader = [Img(render(pts, amp=jb.get("amp", 200)), k) for k, pts in enumerate(jb["frames"])]
+        if shared and shared.get("reader") is not None:
+            reader = shared["reader"]
+        else:
+            reader = [Img(render(pts, amp=jb.get("amp", 200)), k) for k, pts in enumerate(jb["frames"])]
         wseed = jb.get("withhold_seed")
 
         def before_link(coords, image=None, **kw):
@@ -227,6 +253,27 @@ def run_case(ctx, inp):
     from trackpy.linking.utils import SubnetOversizeException
     res = Result()
     jobs, sched = inp["jobs"], inp["sched"]
+    # caller-owned objects shared between jobs (the solo re-runs below get FRESH ones)
+    shared = [None] * len(jobs)
+    if inp.get("share"):
+        sr_objs, readers = {}, {}
+        for j, jb in enumerate(jobs):
+            sh = {}
+            if jb["kind"] in ("link_iter", "link_df_iter") and not jb.get("iso", True):
+                key = (tuple(jb["sr"]), jb.get("scale_pow", 0))
+                if key not in sr_objs:
+                    sr_objs[key] = np.array(linkcommon.search_range_arg(jb), dtype=np.float64)
+                    res.stat("shared_search_range_arrays")
+                sh["sr"] = sr_objs[key]
+            if jb["kind"] == "find_link_iter":
+                key = jb.get("movie_id", j)
+                if key not in readers:
+                    readers[key] = [Img(render(pts, amp=jb.get("amp", 200)), k)
+                                    for k, pts in enumerate(jb["frames"])]
+                else:
+                    res.stat("shared_movies")
+                sh["reader"] = readers[key]
+            shared[j] = sh
     gens = [None] * len(jobs)
     out = [[] for _ in jobs]
     dead = set()
@@ -245,7 +292,7 @@ def run_case(ctx, inp):
             continue
         try:
             if gens[s] is None:
-                gens[s] = make_gen(jobs[s])
+                gens[s] = make_gen(jobs[s], shared[s])
             pts, labels = next(gens[s])
         except SubnetOversizeException:
             dead.add(s)
